@@ -1,0 +1,121 @@
+//! Instrumentation hooks for runtime monitoring.
+//!
+//! This module is compiled only with the `verif` cargo feature, which is off
+//! by default. It records which row ranges the worker threads of the
+//! multi-threaded operations process, so that an external monitor can check
+//! that the ranges tile the input exactly once. The log uses relaxed atomics
+//! only: it introduces no happens-before edge between worker threads, so it
+//! can't hide a data race from a race detector.
+
+use std::sync::atomic::{
+    AtomicU64,
+    AtomicUsize,
+    Ordering::Relaxed,
+};
+
+/// The site of `AdjacencyList::complement`.
+pub const AL_COMPLEMENT: u64 = 1;
+/// The site of `AdjacencyList::complete`.
+pub const AL_COMPLETE: u64 = 2;
+/// The site of `AdjacencyList::degree_sequence`.
+pub const AL_DEGREE_SEQUENCE: u64 = 3;
+/// The site of `AdjacencyList::is_semicomplete`.
+pub const AL_IS_SEMICOMPLETE: u64 = 4;
+/// The site of `AdjacencyList::union`.
+pub const AL_UNION: u64 = 5;
+/// The site of `AdjacencyMap::erdos_renyi`.
+pub const AM_ERDOS_RENYI: u64 = 6;
+/// The site of `AdjacencyMap::random_tournament`.
+pub const AM_RANDOM_TOURNAMENT: u64 = 7;
+/// The site of `AdjacencyMap::union`, left operand.
+pub const AM_UNION_LHS: u64 = 8;
+/// The site of `AdjacencyMap::union`, right operand.
+pub const AM_UNION_RHS: u64 = 9;
+
+/// The event kind of a worker that starts on a range.
+pub const BEGIN: u64 = 0;
+/// The event kind of a worker that is done with a range.
+pub const END: u64 = 1;
+
+const CAP: usize = 1 << 12;
+
+#[allow(clippy::declare_interior_mutable_const)]
+const ZERO: AtomicU64 = AtomicU64::new(0);
+
+static LOG: [AtomicU64; CAP * 4] = [ZERO; CAP * 4];
+static CURSOR: AtomicUsize = AtomicUsize::new(0);
+static DELAY: AtomicU64 = AtomicU64::new(0);
+
+/// Set the delay seed; zero disables delays.
+pub fn set_delay_seed(seed: u64) {
+    DELAY.store(seed, Relaxed);
+}
+
+/// Forget all recorded events.
+pub fn reset() {
+    CURSOR.store(0, Relaxed);
+}
+
+/// Record an event and maybe delay the calling thread.
+pub fn span(site: u64, kind: u64, lo: usize, hi: usize) {
+    let i = CURSOR.fetch_add(1, Relaxed);
+
+    if i < CAP {
+        LOG[i * 4].store((site << 8) | kind, Relaxed);
+        LOG[i * 4 + 1].store(lo as u64, Relaxed);
+        LOG[i * 4 + 2].store(hi as u64, Relaxed);
+        LOG[i * 4 + 3].store(i as u64 + 1, Relaxed);
+    }
+
+    let seed = DELAY.load(Relaxed);
+
+    if seed != 0 {
+        let mut z = seed
+            ^ site.wrapping_mul(0x9E37_79B9_7F4A_7C15)
+            ^ ((lo as u64) << 17)
+            ^ kind;
+
+        z = (z ^ (z >> 30)).wrapping_mul(0xBF58_476D_1CE4_E5B9);
+        z ^= z >> 31;
+
+        match z & 3 {
+            1 => std::thread::yield_now(),
+            2 => {
+                for _ in 0..((z >> 8) & 0xFFF) {
+                    std::hint::spin_loop();
+                }
+            }
+            3 => std::thread::sleep(std::time::Duration::from_micros(
+                50 + ((z >> 8) & 0xFF),
+            )),
+            _ => (),
+        }
+    }
+}
+
+/// Return the number of events recorded since the last reset, including
+/// those that didn't fit in the log.
+#[must_use]
+pub fn recorded() -> usize {
+    CURSOR.load(Relaxed)
+}
+
+/// Return the recorded events as `(site, kind, lo, hi)`.
+#[must_use]
+pub fn drain() -> Vec<(u64, u64, usize, usize)> {
+    let n = CURSOR.load(Relaxed).min(CAP);
+
+    (0..n)
+        .filter(|&i| LOG[i * 4 + 3].load(Relaxed) == i as u64 + 1)
+        .map(|i| {
+            let a = LOG[i * 4].load(Relaxed);
+
+            (
+                a >> 8,
+                a & 0xFF,
+                usize::try_from(LOG[i * 4 + 1].load(Relaxed)).unwrap_or(0),
+                usize::try_from(LOG[i * 4 + 2].load(Relaxed)).unwrap_or(0),
+            )
+        })
+        .collect()
+}
